@@ -101,17 +101,17 @@ LEVEL_TEXT['C10'] = 'Kernel only. Unbounded deductive proof (Verus) that errexit
 NOTE['C10'] = 'Kernel only (the dynamic context stack decision). Trusted: Verus/Z3, Kani/CBMC; Env reduced to three fields in the Verus unit; OptionSet::get and slice::contains assumed; RandomState::new stubbed in Kani. The RAII composition of the frame guard is assumed (destructors are not modelled). Not covered: callers of apply_errexit, the shell-error consequence table.'
 TECH['C10'] = 'contract-based deductive verification (Verus, Z3) of Env::errexit_is_applicable / apply_errexit / apply_result and of the three sites that push Frame::Condition (evaluate_condition, negated Pipeline::execute, AndOrList::execute) + bounded Kani sibling on the real crate'
 
-LEVEL_TEXT['C09'] = 'Kernel only. Unbounded deductive proof (Verus) on the real perform / RedirGuard code, against an assumed model of the descriptor table: a redirection saves the target in a close-on-exec descriptor >= 10, changes the target only, refuses targets the shell reserves, and leaves the table unchanged on every failure; the guard restores exactly the initial table (undo_redirs, Drop) for any number of redirections, or closes every backing copy (preserve_redirs). Each operator opens its file with the access mode and flags of XCU 2.7, noclobber never truncates or hands out an existing regular file, <& / >& only name suitable open descriptors, and every opener leaves nothing open on failure. The expansion of operands and the interpreter\'s use of the guard are assumed or not decided; level other because the claim is a kernel over a model of the OS side.'
-NOTE['C09'] = 'Kernel only. Trusted: Verus/Z3; the descriptor-table model of Close/Dup/Fcntl; assumed contracts for expansion and for writing the here-document body; await points dropped; loops over drain() checked in an equivalent form. Not covered: here-document content, callers of RedirGuard, move_fd_internal, VirtualSystem.'
-TECH['C09'] = 'contract-based deductive verification (Verus, Z3) of perform / replace_target / RedirGuard::{new, perform_redir, undo_redirs, preserve_redirs, drop} and the openers (open_normal, open_file, open_file_noclobber, copy_fd, here_doc::open_fd) against a ghost descriptor table'
+LEVEL_TEXT['C09'] = 'Kernel only. Unbounded deductive proof (Verus) on the real perform / RedirGuard code, against an assumed model of the descriptor table: a redirection saves the target in a close-on-exec descriptor >= 10, changes the target only, refuses targets the shell reserves, and leaves the table unchanged on every failure; the guard restores exactly the initial table (undo_redirs, Drop) for any number of redirections, or closes every backing copy (preserve_redirs). Each operator opens its file with the access mode and flags of XCU 2.7, noclobber never truncates or hands out an existing regular file, <& / >& only name suitable open descriptors, and every opener leaves nothing open on failure. Two callers of the guard (execute_function, execute_external_utility) perform the redirections first, keep them in effect exactly while assignments and command run, and do nothing more after a failed one. The expansion of operands and the other uses of the guard are assumed or not decided; level other because the claim is a kernel over a model of the OS side.'
+NOTE['C09'] = 'Kernel only. Trusted: Verus/Z3; the descriptor-table model of Close/Dup/Fcntl; assumed contracts for expansion and for writing the here-document body; await points dropped; loops over drain() checked in an equivalent form; in unit funcall RAII of the guard assumed as a whole. Not covered: here-document content, the callers of RedirGuard other than execute_function / execute_external_utility, VirtualSystem.'
+TECH['C09'] = 'contract-based deductive verification (Verus, Z3) of perform / replace_target / RedirGuard::{new, perform_redir, undo_redirs, preserve_redirs, drop}, the openers (open_normal, open_file, open_file_noclobber, copy_fd, here_doc::open_fd) and move_fd_internal against a ghost descriptor table, and of two callers of the guard (execute_function, execute_external_utility) against a ghost monitor'
 
 LEVEL_TEXT['C18'] = 'Kernel only. Unbounded deductive proof (Verus) on the real FdReader2::next_line against an assumed model of read(2): each read asks for one byte, the bytes consumed from the descriptor are exactly the returned line, ending at the first newline, on success and on error; nothing that follows the line is taken from the input; bounded Kani check that read_char of the read built-in decodes and consumes exactly one character under every chunking of the reads. The lexer / read-eval-loop half of the property (a new line is requested only when needed, each command runs before the next is read) is async interpreter code and is not decided; level other because the claim is a kernel over a model of the OS side.'
 NOTE['C18'] = 'Kernel only (the line reader). Trusted: Verus/Z3; the synchronous model of Read; assumed contract of slice::from_mut; await points dropped; text conversion uninterpreted. Kani part bounded (read_char: inputs <= 4 bytes, every chunking). Not covered: lexer buffer management, runner, Memory / Echo / prompt decorators, cross-process sharing of the descriptor, the backslash processing of read().'
 TECH['C18'] = 'contract-based deductive verification (Verus, Z3) of FdReader2::next_line (loop invariant over the consumed byte stream of a model descriptor) + bounded Kani harness-encoded contract of read_char (all inputs <= 4 bytes x all chunkings) on the real crate'
 
-LEVEL_TEXT['C02'] = 'Two kernels only. Unbounded deductive proof (Verus) that the command search resolves a name in the POSIX order (special built-in, function, other built-in, external utility; a slash means a path) and settles the path and the not-found / unusable errors as documented, that break n / continue n leave min(n, enclosing loops) loops or fail outside a loop, and that while / until loops hand on the first divert of condition or body with exactly one level taken off (never swallowing one); bounded Kani check (stacks of <= 3-4 frames) of Stack::loop_count, the function that counts the enclosing loops of the current execution environment. The statement as a whole (which commands run, in which order, with which $?) is whole-interpreter async code and is not decided; level other because of that and of the bounded part.'
-NOTE['C02'] = 'Kernels only (command search order; break/continue levels). Trusted: Verus/Z3, Kani/CBMC; ghost views on the environment traits; search_path assumed; loop_count assumed in Verus and bounded-checked in Kani. Not covered: all other executors (and-or, pipelines, if/for/case, functions, return/exit), decoding of diverts by for loops, Env::builtin, PATH walking.'
-TECH['C02'] = 'contract-based deductive verification (Verus, Z3) of classify / search / resolve_builtin, of break/continue run and of Loop::iterate / Loop::execute of while loops + bounded Kani harness-encoded contract of Stack::loop_count on the real crate'
+LEVEL_TEXT['C02'] = 'Kernels only. Unbounded deductive proofs (Verus): the command search resolves a name in the POSIX order (special built-in, function, other built-in, external utility; a slash means a path) and settles the path and the not-found / unusable errors as documented; break n / continue n leave min(n, enclosing loops) loops or fail outside a loop; while / until loops hand on the first divert of condition or body with exactly one level taken off and end with the status of the last execution of their body; and-or lists short-circuit left to right, ! inverts the status of commands that ended normally, if runs the branch of the first condition that held; SimpleCommand::execute runs exactly the executor of the classified target, once; a function body runs once in its own context and `return` leaves only that function; execute_function / execute_external_utility run their target at most once, only after redirections and assignments succeeded, and a utility that is not found leaves 127. Everything a command does is an opaque call observed by ghost monitors. Bounded Kani check (stacks of <= 3-4 frames) of Stack::loop_count. The statement as a whole (every program, every $?) is whole-interpreter async code and is not decided; level other because of that and of the bounded part.'
+NOTE['C02'] = 'Kernels only (command search order; break/continue levels; while/until; and-or, !, if; simple-command dispatch; function call, external utility). Trusted: Verus/Z3, Kani/CBMC; ghost views on the environment traits; search_path assumed; loop_count assumed in Verus and bounded-checked in Kani; opaque callees behind ghost monitors; RAII of frame / context / redirection guards assumed; await points dropped. Not covered: for/case, multi-command pipelines and subshells, built-in execution, exit, Env::builtin, PATH walking.'
+TECH['C02'] = 'contract-based deductive verification (Verus, Z3) of classify / search / resolve_builtin, break/continue run, Loop::iterate / Loop::execute, evaluate_condition / Pipeline::execute / AndOrList::execute / if execute, SimpleCommand::execute, execute_function_body / execute_function / execute_external_utility (opaque callees observed by ghost monitors) + bounded Kani harness-encoded contract of Stack::loop_count on the real crate'
 
 LEVEL_TEXT['C17'] = 'Eligibility kernel only. Unbounded deductive proof (Verus) that Parser::substitute_alias replaces exactly the eligible tokens (unquoted literal word token; alias of that name exists; not already inside its own replacement; command position, global alias or after a blank-ending alias value) and that the recursion guard Source::is_alias_for is membership in the chain of alias origins, for chains of every depth. Termination and the resulting token sequence depend on the lexer splice and the async restart protocol and are not decided; level other because the claim is a kernel.'
 NOTE['C17'] = 'Eligibility kernel only. Trusted: Verus/Z3; ghost-map model of the glossary; reduced models of Word / Location / Source; lexer calls external_body. Not covered: LexerCore::substitute_alias (splice), restart protocol, keyword recognition in replacement text, alias/unalias built-ins.'
